@@ -179,7 +179,7 @@ var registry = map[string]check{
 		components:  mergeComp(compR, compC),
 	},
 	"C17": {
-		parts:  []part{{"runtime", layerr.C17, 12, 12}, {"compiled", layerc.C17, 3, 6}},
+		parts:  []part{{"runtime", layerr.C17, 18, 18}, {"compiled", layerc.C17, 3, 6}},
 		replay: replayAny, level: "exploration",
 		rule:        "cases = loop kind (For/While/Loop) x quiet body (Continue/Normal, optionally behind an inner loop) x n in an ascending ladder; stack depth (runtime.Callers) sampled at effect points; oracle: max depth at 10n <= max depth at n + 8 frames, and delivered values equal the reference. Every case is non-trivial (>= 100 iterations); distinct = (loop shape, n).",
 		assumptions: []string{"runtime.Callers depth is a faithful measure of stack use per frame kind"},
